@@ -163,13 +163,14 @@ def install(M, knobs, report):
     def notify(self, data):
         stack.append([])
         in0 = id(data.in_data)
+        lang0, event0 = data.lang, data.event        # "the event's language": what it was when the event was raised
         try:
             res = orig_notify(self, data)
         finally:
             calls = stack.pop()
         try:
             bump("c17_notifications")
-            table = self.event_handlers.get(data.event)
+            table = self.event_handlers.get(event0)
             exp = []
             cur_in = in0
             cur_out = in0
@@ -179,7 +180,7 @@ def install(M, knobs, report):
             why = ""
             if table is not None:
                 for langs, h in table:
-                    if not (data.lang in langs or ANY in langs):
+                    if not (lang0 in langs or ANY in langs):
                         continue
                     f = getattr(h, "_lian_sim_orig", h)
                     if ci >= len(calls):
@@ -216,7 +217,7 @@ def install(M, knobs, report):
             if len(calls) > 1:
                 bump("c17_multi_handler_notifications")
             if not ok and len(report["c17"]) < 20:
-                report["c17"].append({"cls": why, "event": int(data.event), "lang": str(data.lang), "n_calls": len(calls),
+                report["c17"].append({"cls": why, "event": int(event0), "lang": str(lang0), "lang_after": str(data.lang), "n_calls": len(calls),
                                       "returns": [repr(c[2]) for c in calls], "result": repr(res)})
         except Exception as e:  # noqa
             bump("c17_monitor_errors")
@@ -418,7 +419,8 @@ def gen_invivo_ops(rng, n_modules=None, size=None):
         from sim.core import REPO_DIR
         sub, ext, lang_ = rng.choice([("dataflows/javascript", ".js", "javascript"), ("lang_parser/javascript", ".js", "javascript"),
                                       ("lang_parser/java", ".java", "java"), ("dataflows/java", ".java", "java"),
-                                      ("lang_parser/go", ".go", "go"), ("lang_parser/php", ".php", "php"), ("import/js", ".js", "javascript")])
+                                      ("lang_parser/go", ".go", "go"), ("lang_parser/php", ".php", "php"), ("import/js", ".js", "javascript"),
+                                      ("lang_parser/typescript", ".ts", "typescript"), ("lang_parser/typescript", ".ts", "typescript")])
         cands = []
         for root, dirs, fns in os.walk(os.path.join(REPO_DIR, "tests", sub)):
             dirs.sort()
@@ -432,10 +434,16 @@ def gen_invivo_ops(rng, n_modules=None, size=None):
                     pass
             if files:
                 lang = lang_
+                if lang == "typescript":
+                    # object creation, field reads and calls: the P2 events with per-language default handlers
+                    files["objs.ts"] = ("class Foo {\n    get(): number {\n        return 1;\n    }\n}\n\nfunction build(v: number) {\n"
+                                        "    let f = new Foo(v);\n    return f;\n}\n\nlet r = build(3);\n")
+                    if rng.random() < 0.5:
+                        files = {"objs.ts": files["objs.ts"]}      # the corpus files often stop the TypeScript front-end early
             else:
                 files = projgen.gen_project(rng, 1, 2)
     ops = [{"op": "file", "path": p, "content": files[p]} for p in sorted(files)]
-    ops.append({"op": "run", "lang": lang, "sub": rng.choice(["run", "run", "semantic"]),
+    ops.append({"op": "run", "lang": lang, "plugin": rng.random() < 0.5, "sub": rng.choice(["run", "run", "semantic"]),
                 "flags": sorted(set(rng.sample(["--enable-p2", "--nomock", "--graph"], rng.randint(0, 2)))),
                 "max_rows": rng.choice([1, 3, 8, 20, 60, 400000]),
                 "caps": {"LRU_CACHE_CAPACITY": rng.choice([1, 2, 3, 20]), "BUNDLE_CACHE_CAPACITY": rng.choice([1, 2]),
@@ -468,8 +476,28 @@ def run_ops(ops, timeout=240):
                 f.write(op["content"])
         knobs = {"max_rows": run.get("max_rows", 400000), "caps": run.get("caps", {}), "sample_every": run.get("sample_every", 7),
                  "xprocess_hashseed": run.get("xprocess_hashseed", 0) if not run.get("fault") else 0, "fault": run.get("fault")}
+        extra_flags = []
+        if run.get("plugin"):
+            # a real plugin file (-e): passive handlers for every event kind, registered AFTER the default table, for single
+            # languages and for the any-language marker - the production dispatch must filter them exactly
+            pl = os.path.join(B, "probe_plugin.py")
+            with open(pl, "w") as f:
+                f.write("from lian.events.handler_template import EventHandlerManager\n"
+                        "from lian.config.constants import EVENT_KIND\n"
+                        "import lian.events.event_return as er\n"
+                        "class ProbePlugin(EventHandlerManager):\n"
+                        "    def __init__(self, event_manager):\n"
+                        "        super().__init__(event_manager)\n"
+                        "        for event in sorted(event_manager.event_handlers):\n"
+                        "            for langs in (['typescript'], ['javascript'], ['python'], ['java', 'go'], 'php', ['%']):\n"
+                        "                event_manager.register(event, self.make(), langs)\n"
+                        "    def make(self):\n"
+                        "        def passive(data):\n"
+                        "            return er.EventHandlerReturnKind.UNPROCESSED\n"
+                        "        return passive\n")
+            extra_flags = ["-e", pl]
         argv = lianrun.build_argv({"sub": run.get("sub", "run"), "lang": run.get("lang", "python"), "force": True, "workspace": os.path.join(B, "ws"),
-                                   "inputs": [proj], "flags": run.get("flags", [])}, ctx["settings"])
+                                   "inputs": [proj], "flags": list(run.get("flags", [])) + extra_flags}, ctx["settings"])
 
         def before_run(M):
             report = {}
